@@ -109,7 +109,7 @@ func c09(c *core.Ctx) {
 		}
 		k.Distinct(fmt.Sprintf("prime|%d", k.Index))
 	})
-	c.Family("modexp", c.N(60, 3000), func(k *core.Case) {
+	c.Family("modexp", c.N(60, 8000), func(k *core.Case) {
 		gi := k.Index % 2
 		g, p, n := grp(gi)
 		for _, x := range exponents(k.R, p) {
@@ -152,7 +152,7 @@ func c09(c *core.Ctx) {
 		}
 	})
 	// results with exactly a few leading zero octets: exponent 1 (and 2) with peers that have leading zeros
-	c.Family("leading-zero-search", c.N(400, 20000), func(k *core.Case) {
+	c.Family("leading-zero-search", c.N(400, 100000), func(k *core.Case) {
 		gi := k.Index % 2
 		g, p, n := grp(gi)
 		nz := 1 + k.Index/2%4
@@ -175,7 +175,7 @@ func c09(c *core.Ctx) {
 		}
 		k.Distinct(fmt.Sprintf("lzs|%d|%d", gi, leadingZeros(sh)))
 	})
-	c.Family("agreement", c.N(40, 2000), func(k *core.Case) {
+	c.Family("agreement", c.N(40, 10000), func(k *core.Case) {
 		gi := k.Index % 2
 		g, p, n := grp(gi)
 		a, err1 := security.GenerateRandomNumber()
@@ -200,7 +200,7 @@ func c09(c *core.Ctx) {
 	})
 	min := new(big.Int).Lsh(big.NewInt(1), 128)
 	max := new(big.Int).Lsh(big.NewInt(1), 2048)
-	c.Family("exponent-generation", c.N(20, 2000), func(k *core.Case) {
+	c.Family("exponent-generation", c.N(20, 6000), func(k *core.Case) {
 		seen := map[string]bool{}
 		for i := 0; i < 100; i++ {
 			rec := &mon.Recorder{Src: mon.RealRand()}
@@ -255,7 +255,7 @@ func c09(c *core.Ctx) {
 		k.Distinct(fmt.Sprintf("gen|%d", k.Index%16))
 	})
 	// runs of k consecutive below-minimum draws followed by good ones: the result is never a rejected draw
-	c.Family("low-draw-runs", c.N(64, 2000), func(k *core.Case) {
+	c.Family("low-draw-runs", c.N(64, 20000), func(k *core.Case) {
 		run := 1 + k.Index%64
 		var parts []io.Reader
 		for i := 0; i < run; i++ {
@@ -384,7 +384,7 @@ func c10(c *core.Ctx) {
 		}
 		k.Distinct(fmt.Sprintf("keysize|%d|%d", want, n))
 	})
-	c.Family("inverse", c.N(3*2000, 3*200000), func(k *core.Case) {
+	c.Family("inverse", c.N(3*2000, 3*6000000), func(k *core.Case) {
 		kl := []int{16, 24, 32}[k.Index%3]
 		n := k.Index / 3
 		if n > 300 {
@@ -438,7 +438,7 @@ func c10(c *core.Ctx) {
 			k.Sample(w)
 		}
 	})
-	c.Family("iv-freshness", c.N(48, 600), func(k *core.Case) {
+	c.Family("iv-freshness", c.N(48, 6000), func(k *core.Case) {
 		kl := []int{16, 24, 32}[k.Index%3]
 		key := k.R.Bytes(kl)
 		seen := map[string]bool{}
@@ -551,7 +551,7 @@ func c10(c *core.Ctx) {
 			}
 		}
 	})
-	c.Family("history", c.N(300, 3000), func(k *core.Case) {
+	c.Family("history", c.N(300, 300000), func(k *core.Case) {
 		kl := []int{16, 24, 32}[k.Index%3]
 		key := k.R.Bytes(kl)
 		long, _ := newCipher(kl, key)
